@@ -205,6 +205,11 @@ type c31Op struct {
 	Upstream int
 	Default  []int // rebase: expected default plan
 	Plan     []planStep
+	// dirty working set variants (see c31dirty.go): the uncommitted edits made before the operation and their model
+	Dirty    string        // "" | unstaged-other | untracked-new | ignored-new | staged-other | unstaged-touched
+	DirtySQL []string      // statements that make the working set dirty (logged with the case)
+	DirtyTab *sqlrig.Table // expected working contents of the edited tracked table (nil: none)
+	NewTab   *sqlrig.Table // expected contents of the brand-new (untracked or ignored) table (nil: none)
 }
 
 func (o c31Op) String() string {
@@ -217,6 +222,9 @@ func (o c31Op) String() string {
 		return fmt.Sprintf("rebase branch@c%d onto c%d plan[%s]", o.T, o.Upstream, strings.Join(p, ", "))
 	case "revert-multi":
 		return fmt.Sprintf("revert %v on c%d resolve=%s", o.Cs, o.T, o.Resolve)
+	}
+	if o.Dirty != "" {
+		return fmt.Sprintf("%s c%d on c%d tx=%v dirty=%s %q", o.Kind, o.C, o.T, o.Tx, o.Dirty, o.DirtySQL)
 	}
 	return fmt.Sprintf("%s c%d on c%d tx=%v", o.Kind, o.C, o.T, o.Tx)
 }
@@ -326,7 +334,9 @@ func c31(c *rig.Ctx) {
 		"branch in ~70% of histories); the model state of every table is recorded at every commit when the script is generated. Every commit " +
 		"with a parent is tried as C for dolt_cherry_pick (onto parent(C), a branch tip, a random commit) and dolt_revert (on C itself, a tip, a " +
 		"random commit), each on a fresh branch; multi-commit reverts with conflict resolution and --continue; interactive rebase plans " +
-		"(reorder/pick/drop/squash/fixup/reword edited through the dolt_rebase table). Expectation = sqlrig.Merge3 over the recorded states, " +
+		"(reorder/pick/drop/squash/fixup/reword edited through the dolt_rebase table); plus ~10 cherry-picks/reverts per history run with a DIRTY working set " +
+		"(unstaged or staged edit of a table C does not touch, unstaged edit of a table C touches, brand-new untracked table, dolt_ignore'd new table): the new commit " +
+		"read AS OF HEAD must hold exactly the model merge, the uncommitted edits must stay in the working set and in dolt_status, refusals/aborts must change nothing. Expectation = sqlrig.Merge3 over the recorded states, " +
 		"never another Dolt merge. A case is distinct when (kind, #conflicts, no-op?, plan shape) differs and the operation changed data or stopped with a conflict")
 	c.Assume("row edits only (no schema change inside C31 histories); single BIGINT key; when the model merge equals HEAD an error ('nothing to commit') is accepted and only 'data unchanged' is asserted")
 	srv, stop := startServer(c, "c31")
@@ -334,12 +344,13 @@ func c31(c *rig.Ctx) {
 	nh := c.Pick(60, 800)
 	st := newTally()
 	runParallel(nh, 4, func(i int) {
-		if c.Violations() > 12 {
+		if st.get("c31.unclassified_violations") > 12 {
 			return
 		}
 		r := c.SubRand("c31", i)
 		h := genC31Hist(r, fmt.Sprintf("c31_%d", i))
 		ops := genC31Ops(r, h, c.Thorough())
+		ops = append(ops, genC31DirtyOps(c.SubRand("c31dirty", i), h)...) // own PRNG stream: the clean-working-set cases stay as they were
 		var opDesc []string
 		for _, o := range ops {
 			opDesc = append(opDesc, o.String())
@@ -357,6 +368,10 @@ func c31(c *rig.Ctx) {
 	c.Require(st.get("c31.rebase_conflict_stops") > 0, "no rebase stopped with a conflict")
 	c.Require(st.get("c31.identity_checks") > 0, "identity clauses not exercised")
 	c.Require(st.get("c31.multi_revert_continues") > 0, "no multi-commit revert was continued after a conflict")
+	c.Require(st.get("c31.dirty_accepted.revert.unstaged-other") > 0, "no revert succeeded with an unstaged edit of a table the commit does not touch")
+	c.Require(st.get("c31.dirty_accepted.revert.untracked-new") > 0, "no revert succeeded with a brand-new untracked table in the working set")
+	c.Require(st.get("c31.dirty_accepted.cherry-pick.ignored-new") > 0, "no cherry-pick succeeded with an ignored new table in the working set")
+	c.Require(st.get("c31.dirty_refused_or_noop") > 0, "no dirty working set was refused")
 }
 
 func runC31(c *rig.Ctx, srv *sqlrig.Server, h *c31Hist, ops []c31Op, st *tally) {
@@ -377,6 +392,9 @@ func runC31(c *rig.Ctx, srv *sqlrig.Server, h *c31Hist, ops []c31Op, st *tally) 
 	h.fpBudget = c.Pick(6, 12)
 	shape := h.Commits[0].Snap
 	viol := func(key, what string, op c31Op, extra map[string]any) {
+		if !c31FindingClass[key] {
+			st.inc("c31.unclassified_violations")
+		}
 		w := map[string]any{"op": op.String(), "db": h.DB, "script": sqls(h.Steps)}
 		hashes := map[string]string{}
 		for _, cm := range h.Commits {
@@ -396,6 +414,10 @@ func runC31(c *rig.Ctx, srv *sqlrig.Server, h *c31Hist, ops []c31Op, st *tally) 
 		}
 		switch op.Kind {
 		case "cherry-pick", "revert":
+			if op.Dirty != "" {
+				c31DirtyPickRevert(c, x, h, op, shape, st, viol)
+				break
+			}
 			c31PickRevert(c, x, fpx, h, op, shape, fpOpt, st, viol)
 		case "revert-multi":
 			c31RevertMulti(c, x, h, op, shape, st, viol)
@@ -408,7 +430,7 @@ func runC31(c *rig.Ctx, srv *sqlrig.Server, h *c31Hist, ops []c31Op, st *tally) 
 			return
 		}
 		x.Exec("call dolt_branch('-D','" + br + "')")
-		if c.Violations() > 12 {
+		if st.get("c31.unclassified_violations") > 12 {
 			return
 		}
 	}
@@ -747,4 +769,12 @@ func c31Rebase(c *rig.Ctx, x, fpx *sqlrig.Session, h *c31Hist, op c31Op, br stri
 		}
 	}
 	c.Distinct("rebase/ok/" + shapeSig)
+}
+
+// c31FindingClass: violation classes precise enough to be judged (and listed as known findings) on their own; they do not
+// count towards the early cut-off of a run.
+var c31FindingClass = map[string]bool{
+	// dolt_revert('--abort') sets working = staged = pre-revert HEAD root: uncommitted edits of tables the revert never
+	// touched (which dolt_revert explicitly allows in the working set) and new untracked tables are gone after the abort
+	"c31/revert-dirty/abort/uncommitted-edits-lost": true,
 }
